@@ -125,6 +125,16 @@ SUITES.update({
                            "malformations) with the class the injector demands, plus double faults (class free)"),
 })
 
+def system_suite(shape):
+    return dict(module="MC_System", kind="simulate", spec="Spec", invariants=["SysValid", "SysStringParses", "SysRebuild", "Emit"],
+                quick=dict(SHAPE='"%s"' % shape, DEPTH=16), thorough=dict(SHAPE='"%s"' % shape, DEPTH=40),
+                simulate=dict(quick="num=60", thorough="num=1500"),
+                describe="closed client sessions (PurlSystem): new / setters / build / into_builder / format / respell / parse chained to depth DEPTH "
+                         "by TLC -simulate and replayed on live builder, PURL and string objects with the projection compared after every step")
+
+
+SUITES.update({"SYSTEM-G": system_suite("generic"), "SYSTEM-T": system_suite("typed")})
+
 # drivers (impl -> spec): name -> dict(trace module, calls per tier, extra args, processes)
 CORPUS = ["--corpus", "/repo/xtask/src/generate_tests/test-suite-data.json",
           "--corpus", "/repo/xtask/src/generate_tests/phylum-test-suite-data.json"]
@@ -148,16 +158,16 @@ DRIVERS = {
 PARSE_ALL = ["PARSE-SEP", "PARSE-PATH", "PARSE-QUAL", "PARSE-TYPED", "PARSE-NS", "PARSE-SUB", "PARSE-QUALS2", "SPELL", "FAULT"]
 BUILD_ALL = ["BUILDER-G", "BUILDER-T", "BUILDER-SIM-G", "BUILDER-SIM-T"]
 PROPS = {
-    "C01": dict(suites=PARSE_ALL + ["FORMAT-1", "TYPES-NAMES"], drivers=["garbage", "corpus"]),
+    "C01": dict(suites=PARSE_ALL + ["FORMAT-1", "TYPES-NAMES", "SYSTEM-G", "SYSTEM-T"], drivers=["garbage", "corpus"]),
     "C02": dict(suites=PARSE_ALL, drivers=["corpus"]),
     "C03": dict(suites=["FORMAT-1", "FORMAT-2", "PARSE-QUAL", "BUILDER-G"], drivers=["scalars", "builder-ops"]),
-    "C04": dict(suites=PARSE_ALL + BUILD_ALL + ["SHAPES"], drivers=["garbage", "builder-ops"]),
+    "C04": dict(suites=PARSE_ALL + BUILD_ALL + ["SHAPES", "SYSTEM-G", "SYSTEM-T"], drivers=["garbage", "builder-ops"]),
     "C05": dict(suites=PARSE_ALL, drivers=["corpus", "garbage"]),
     "C06": dict(suites=PARSE_ALL + ["QUAL", "QUAL-SIM", "CHECKSUM", "BUILDER-G", "BUILDER-T", "BUILDER-SIM-G", "FORMAT-1", "TYPES-LOOKUP", "TYPES-COMB", "SHAPES"], drivers=["garbage", "corpus", "qual-ops", "checksum-ops", "builder-ops", "big"]),
     "C07": dict(suites=["PARSE-NS", "PARSE-SUB", "PARSE-PATH", "PARSE-SEP", "SPELL", "FAULT"], drivers=["garbage", "corpus"]),
     "C08": dict(suites=["TYPES-NAMES", "PARSE-TYPED", "BUILDER-T", "TYPES-COMB"], drivers=["scalars"]),
-    "C09": dict(suites=BUILD_ALL + ["FORMAT-1", "FORMAT-2"], drivers=["builder-ops"]),
-    "C10": dict(suites=PARSE_ALL + ["BUILDER-G", "BUILDER-T", "FORMAT-1", "TYPES-NAMES", "CHECKSUM"], drivers=["scalars", "corpus"]),
+    "C09": dict(suites=BUILD_ALL + ["FORMAT-1", "FORMAT-2", "SYSTEM-G", "SYSTEM-T"], drivers=["builder-ops"]),
+    "C10": dict(suites=PARSE_ALL + ["BUILDER-G", "BUILDER-T", "FORMAT-1", "TYPES-NAMES", "CHECKSUM", "SYSTEM-G", "SYSTEM-T"], drivers=["scalars", "corpus"]),
     "C11": dict(suites=["QUAL", "QUAL-SIM"], drivers=["qual-ops"]),
     "C12": dict(suites=["CHECKSUM", "BUILDER-G", "PARSE-QUAL", "SPELL"], drivers=["checksum-ops", "corpus"]),
     "C13": dict(suites=["TYPES-STR", "PARSE-SEP", "PARSE-PATH", "SPELL", "BUILDER-G", "BUILDER-SIM-G", "FORMAT-1"], drivers=[]),
